@@ -490,20 +490,27 @@ def _spec(line):
         hasher = G.NiemeyerHasher(L, b)
         order = list(c.geoshapes)
         hs = [hasher.hash_shape(s) for s in order]
-        out = {}
-        for cell in sorted(set().union(*hs) if hs else ()):
-            ms = [s for s, h in zip(order, hs) if cell in h]
-            if aggname == 'len':
-                v = str(len(ms))
-            elif aggname == 'total_time':
-                v = rat(sum((F(int((s.dt.end - s.dt.start) / timedelta(microseconds=1)), 10 ** 6) if s.dt else F(0)) for s in ms))
-            elif aggname == 'unique_entities':
-                v = str(len({s.properties['entity'] for s in ms if 'entity' in s.properties}))
-            else:
-                v = '.'.join(str(s.properties['vid']) for s in ms)
-            out[cell] = v
-        return ' '.join(f'{k}={v}' for k, v in sorted(out.items())) or '-'
+        return expected_aggregates(order, hs, aggname)
     return None
+
+
+def expected_aggregates(order, hs, aggname):
+    """the statement, literally: each cell maps to the aggregation of exactly those TOP-LEVEL shapes of the collection
+    (each once, in collection order) whose own hash set `hs[k]` (for a multi-shape: the union over its members)
+    contains the cell"""
+    out = {}
+    for cell in sorted(set().union(*hs) if hs else ()):
+        ms = [s for s, h in zip(order, hs) if cell in h]
+        if aggname == 'len':
+            v = str(len(ms))
+        elif aggname == 'total_time':
+            v = rat(sum((F(int((s.dt.end - s.dt.start) / timedelta(microseconds=1)), 10 ** 6) if s.dt else F(0)) for s in ms))
+        elif aggname == 'unique_entities':
+            v = str(len({s.properties['entity'] for s in ms if 'entity' in s.properties}))
+        else:
+            v = '.'.join(str(s.properties['vid']) for s in ms)
+        out[cell] = v
+    return ' '.join(f'{k}={v}' for k, v in sorted(out.items())) or '-'
 
 
 def fragile_cells(grid, member, cells, must):
@@ -561,10 +568,29 @@ def np_impl(line):
                 bad += 1
         return f'{"some" if cells else "none"} bad={bad}'
     if op == 'np-h3.coll':
+        # np-h3.coll <res> 0 <agg> <fc|track> || <shape> @ <id> <start|-> <elapsed|-> <entity|-> || …
+        res, _zero, aggname, ckind, shapes = parse_coll(line)
+        c = (col.Track if ckind == 'track' else col.FeatureCollection)(shapes)
+        before = [shape_state(x) for x in c.geoshapes]
+        hasher = G.H3Hasher(res)
+        agg = _mods()[3]
+        salt = line[:200]
+        if aggname == 'len':
+            d, show = twice(hasher.hash_collection, c, salt=salt), str
+        elif aggname == 'total_time':
+            d, show = twice(hasher.hash_collection, c, salt=salt, agg_fn=agg.total_time), rat
+        elif aggname == 'unique_entities':
+            d, show = twice(hasher.hash_collection, c, salt=salt, agg_fn=agg.unique_entities), rat
+        else:
+            d, show = twice(hasher.hash_collection, c, salt=salt,
+                            agg_fn=lambda l: '.'.join(str(x.properties['vid']) for x in l)), str
+        if [shape_state(x) for x in c.geoshapes] != before:
+            raise Unstable('H3Hasher.hash_collection edited the collection / its shapes')
+        return ' '.join(f'{k}={show(v)}' for k, v in sorted(d.items())) or '-'
+    if op == 'np-h3.multi':
         res = int(a[1])
-        shapes = [build(*parse_shape(sec.split())) for sec in ' '.join(a[2:]).split(' || ')]
-        d = twice(G.H3Hasher(res).hash_collection, col.FeatureCollection(shapes), salt=line[:200])
-        return ' '.join(f'{k}={v}' for k, v in sorted(d.items()))
+        kind, data = parse_shape(a[2:])
+        return ' '.join(sorted(twice(G.H3Hasher(res).hash_shape, build(kind, data), salt=line[:200]))) or '-'
     if op == 'np-sliver.circ':
         b, L = int(a[1]), int(a[2])
         cx, cy, r, bearing, frac = (float(F(v)) for v in a[3:8])
@@ -585,9 +611,36 @@ def np_impl(line):
     raise ValueError(op)
 
 
+class NoJudge(Exception):
+    """the external judge has no answer for this line: the property demands nothing"""
+
+
+def h3_cells(shape, res):
+    """cells of a shape with the h3 library as the judge: a point's cell is h3.latlng_to_cell, a polygon's cells are
+    h3.polygon_to_cells of its rings (both called here directly, not through the hasher); a linestring's cells are what
+    the hasher answers for that single line (the library has no such primitive); a multi-shape is the UNION over its
+    members — it is in the result once, however many members share a cell"""
+    import h3
+    G = _mods()[1]
+    if hasattr(shape, 'geoshapes'):
+        return set().union(*[h3_cells(m, res) for m in shape.geoshapes])
+    if hasattr(shape, 'vertices'):
+        try:
+            return set(G.H3Hasher(res).hash_shape(shape))
+        except Exception as e:  # noqa  h3.grid_path_cells gives up on some lines (pentagon distortion): no judge
+            raise NoJudge(type(e).__name__)
+    if hasattr(shape, 'linear_rings'):
+        rings = [[(c.latitude, c.longitude) for c in ring] for ring in shape.linear_rings()]
+        return set(h3.polygon_to_cells(h3.LatLngPoly(*rings), res))
+    c = shape.centroid
+    return {h3.latlng_to_cell(c.latitude, c.longitude, res)}
+
+
 def np_spec(line):
     try:
         return _np_spec(line)
+    except NoJudge:
+        return None
     except common.InfraError:
         raise
     except Exception as e:  # noqa
@@ -606,14 +659,15 @@ def _np_spec(line):
     if op == 'np-h3.poly':
         return 'some bad=0'
     if op == 'np-h3.coll':
+        res, _zero, aggname, ckind, shapes = parse_coll(line)
+        _gs, _G, col, _a = _mods()
+        c = (col.Track if ckind == 'track' else col.FeatureCollection)(shapes)
+        order = list(c.geoshapes)
+        hs = [h3_cells(s, res) for s in order]
+        return expected_aggregates(order, hs, aggname)
+    if op == 'np-h3.multi':
         res = int(a[1])
-        shapes = [build(*parse_shape(sec.split())) for sec in ' '.join(a[2:]).split(' || ')]
-        hasher = G.H3Hasher(res)
-        cnt = {}
-        for s in shapes:
-            for c in hasher.hash_shape(s):
-                cnt[c] = cnt.get(c, 0) + 1
-        return ' '.join(f'{k}={v}' for k, v in sorted(cnt.items()))
+        return ' '.join(sorted(h3_cells(build(*parse_shape(a[2:])), res))) or '-'
     if op == 'np-sliver.circ':
         # contained coordinate => its cell is returned (the statement read literally, I3)
         got = np_impl(line)
@@ -795,12 +849,16 @@ def gen_shape(rng, b, L, size):
         pts, fam = gen_linestring(rng, lat, W, H)
         return 'ls', pts, 'ls:' + fam
     if r < 0.72:
+        if rng.random() < 0.5:
+            return 'mls', gen_multi(rng, lat, 'mls', W, H), 'mls:sharing'
         ms = []
         for _ in range(rng.randint(2, 3)):
             sub = lat.moved(rng.randint(-2, 2 * size), rng.randint(-2, 2 * size))
             ms.append(gen_linestring(rng, sub, max(q, W // 2), max(q, H // 2))[0])
         return 'mls', ms, 'mls'
     if r < 0.86:
+        if rng.random() < 0.5:
+            return 'mpoly', gen_multi(rng, lat, 'mpoly', max(q, W // 2), max(q, H // 2)), 'mpoly:sharing'
         ms = []
         for _ in range(rng.randint(2, 3)):
             sub = lat.moved(rng.randint(-2, 2 * size), rng.randint(-2, 2 * size))
@@ -809,7 +867,93 @@ def gen_shape(rng, b, L, size):
         return 'mpoly', ms, 'mpoly'
     if r < 0.93:
         return 'pt', [lat.P(rng.randint(0, W), rng.randint(0, H))], 'pt'
+    if rng.random() < 0.5:
+        return 'mpt', gen_multi(rng, lat, 'mpt', W, H), 'mpt:sharing'
     return 'mpt', [lat.P(rng.randint(0, W), rng.randint(0, H)) for _ in range(rng.randint(1, 6))], 'mpt'
+
+
+def gen_multi(rng, lat, kind, W, H):
+    """multi-shape whose members SHARE cells: duplicates, members a fraction of a cell apart, crossing lines,
+    overlapping / nested / edge-sharing polygons — the union must count every cell once"""
+    P = lat.P
+    W, H = max(W, lat.q), max(H, lat.q)
+    if kind == 'mpt':
+        x, y = rng.randint(0, W), rng.randint(0, H)
+        pts = [(x, y), (x, y) if rng.random() < 0.4 else (x + 1, y)]            # same point twice / same cell
+        pts += [(x + rng.randint(-2, 2), y + rng.randint(-2, 2)) for _ in range(rng.randint(0, 3))]
+        if rng.random() < 0.5:
+            pts.append((rng.randint(0, W), rng.randint(0, H)))
+        rng.shuffle(pts)
+        return [P(*p) for p in pts]
+    if kind == 'mls':
+        fam = rng.choice(['cross', 'dup', 'overlap', 'fan'])
+        if fam == 'cross':
+            ms = [[(0, 0), (W, H)], [(0, H), (W, 0)]]
+        elif fam == 'dup':
+            a = [(0, 0), (W, H // 2), (W // 2, H)]
+            ms = [a, a[::-1]]
+        elif fam == 'overlap':
+            ms = [[(0, 1), (W, 1)], [(W // 2, 1), (W + 2, 1)], [(W // 2, 0), (W // 2, H)]]
+        else:
+            ms = [[(0, 0), (rng.randint(1, W), rng.randint(1, H))] for _ in range(3)]
+        if rng.random() < 0.3:
+            ms.append([(0, H), (W // 2, H // 2)])
+        return [[P(*p) for p in m] for m in ms]
+    fam = rng.choice(['overlap', 'dup', 'nested', 'edge', 'corner'])
+    a = rect(lat, 0, 0, W, H)
+    if fam == 'overlap':
+        ms = [(a, []), (rect(lat, W // 2, H // 2, W + W // 2 + 1, H + H // 2 + 1), [])]
+    elif fam == 'dup':
+        ms = [(a, []), (a[:-1][::-1], [])]
+    elif fam == 'nested':
+        ms = [(a, []), (rect(lat, 1, 1, max(2, W - 1), max(2, H - 1)), [])]
+    elif fam == 'edge':
+        ms = [(a, []), (rect(lat, W, 0, 2 * W, H), [])]
+    else:
+        ms = [(a, []), (rect(lat, W, H, 2 * W, 2 * H), [])]
+    if rng.random() < 0.4:
+        shell, holes, _f = gen_polygon(rng, lat, W, H)
+        ms.append((shell, holes))
+    return ms
+
+
+def gen_coll_items(rng, base_lat, ckind, kmax=6, wmax=12):
+    """items (kind, data, id, start µs|-, elapsed µs|-, entity|-) of one collection: single shapes of every kind mixed
+    with multi-shapes of every kind whose members share cells, equal shapes, shapes without dt / entity"""
+    k = rng.randint(0, kmax) if ckind == 'fc' else rng.randint(1, kmax)
+    items = []
+    for vid in range(k):
+        lat = base_lat.moved(rng.randint(0, 6), rng.randint(0, 6))
+        r = rng.random()
+        W, H = rng.randint(2, wmax), rng.randint(2, wmax)
+        if r < 0.22:
+            shell, holes, _f = gen_polygon(rng, lat, W, H)
+            kind, data = 'poly', (shell, holes)
+        elif r < 0.38:
+            kind, data = 'ls', gen_linestring(rng, lat, W, H)[0]
+        elif r < 0.50:
+            kind, data = 'pt', [lat.P(rng.randint(0, W), rng.randint(0, H))]
+        elif r < 0.56:
+            kind, data = 'box', ([lat.P(0, H), lat.P(W, 0)], [])
+        elif r < 0.70:
+            kind, data = 'mpt', gen_multi(rng, lat, 'mpt', W, H)
+        elif r < 0.84:
+            kind, data = 'mls', gen_multi(rng, lat, 'mls', W, H)
+        else:
+            kind, data = 'mpoly', gen_multi(rng, lat, 'mpoly', W, H)
+        if ckind == 'track' or rng.random() < 0.6:
+            st = T0_US + rng.choice([0, 1, 2, 2, 3, 5]) * 3_600_000_000
+            el = rng.choice([0, 0, 125_000, 1_000_000, 90_000_000, 3_600_000_000, 1_500_000])
+        else:
+            st = el = '-'
+        ent = rng.choice(['-', '-', 'e1', 'e2', 'e3'])
+        if items and rng.random() < 0.25:
+            # a second, *equal* shape (same geometry and time; only the identity / entity differ)
+            kind, data, _v, st, el, _e = rng.choice(items)
+        items.append((kind, data, vid, st, el, ent))
+    if ckind == 'track':
+        items.sort(key=lambda it: it[3])      # Track orders by start (stable)
+    return items
 
 
 def gen_curved(rng, b, L):
@@ -966,35 +1110,7 @@ def check(run):
         aggname = rng.choice(['len', 'total_time', 'unique_entities', 'ids'])
         base_lat = Lattice(rng, b, L)
         secs = []
-        k = rng.randint(0, 6) if ckind == 'fc' else rng.randint(1, 6)
-        items = []
-        for vid in range(k):
-            lat = base_lat.moved(rng.randint(0, 6), rng.randint(0, 6))
-            r = rng.random()
-            W, H = rng.randint(2, 12), rng.randint(2, 12)
-            if r < 0.35:
-                shell, holes, _f = gen_polygon(rng, lat, W, H)
-                kind, data = 'poly', (shell, holes)
-            elif r < 0.6:
-                kind, data = 'ls', gen_linestring(rng, lat, W, H)[0]
-            elif r < 0.8:
-                kind, data = 'pt', [lat.P(rng.randint(0, W), rng.randint(0, H))]
-            elif r < 0.9:
-                kind, data = 'box', ([lat.P(0, H), lat.P(W, 0)], [])
-            else:
-                kind, data = 'mpt', [lat.P(rng.randint(0, W), rng.randint(0, H)) for _ in range(rng.randint(1, 4))]
-            if ckind == 'track' or rng.random() < 0.6:
-                st = T0_US + rng.choice([0, 1, 2, 2, 3, 5]) * 3_600_000_000
-                el = rng.choice([0, 0, 125_000, 1_000_000, 90_000_000, 3_600_000_000, 1_500_000])
-            else:
-                st = el = '-'
-            ent = rng.choice(['-', '-', 'e1', 'e2', 'e3'])
-            if items and rng.random() < 0.25:
-                # a second, *equal* shape (same geometry and time; only the identity / entity differ)
-                kind, data, _v, st, el, _e = rng.choice(items)
-            items.append((kind, data, vid, st, el, ent))
-        if ckind == 'track':
-            items.sort(key=lambda it: it[3])      # Track orders by start (stable)
+        items = gen_coll_items(rng, base_lat, ckind)
         ok = True
         for kind, data, vid, st, el, ent in items:
             try:
@@ -1004,7 +1120,8 @@ def check(run):
                 cells, ok = ['?'], False
             secs.append(f'{shape_tokens(kind, data)} @ {vid} {st} {el} {ent} @ {" ".join(cells)}')
         (lines if ok else broken).append(' || '.join([f'fl.coll {b} {L} {aggname} {ckind}'] + secs))
-    coll_tag = lambda ln, a: ['coll:' + ln.split()[3], 'coll:' + ln.split()[4], f'coll:shapes={min(ln.count(" || "), 6)}']  # noqa: E731
+    coll_tag = lambda ln, a: ['coll:' + ln.split()[3], 'coll:' + ln.split()[4], f'coll:shapes={min(ln.count(" || "), 6)}'] + \
+        [f'coll:has-{m}' for m in ('mpt', 'mls', 'mpoly') if f'|| {m} ' in ln]  # noqa: E731
     run.run_cases('hash_collection', lines, impl, spec, tag=coll_tag)
     if broken:
         run.run_cases('hash_collection-unmeasurable', broken, impl, spec, model=False, tag=coll_tag)
@@ -1096,18 +1213,28 @@ def check(run):
         run.run_cases('np-h3-polygon', lines, np_impl, np_spec, model=False,
                       spec_compare=lambda a, s: a.endswith('bad=0'),
                       tag=lambda ln, a: ['h3:poly:' + a.split()[0], 'h3:holes' if ' h ' in ln else 'h3:noholes'])
+        # hash_shape of a multi-shape = union of its members' cells (members share cells: duplicates, points metres
+        # apart, crossing lines, overlapping polygons)
         lines = []
-        for _ in range(run.scale(10, 150)):
-            lat = Lattice(rng, 32, 3)
-            secs = []
-            for _k in range(rng.randint(1, 4)):
-                if rng.random() < 0.5:
-                    shell, holes, _f = gen_polygon(rng, lat, rng.randint(8, 24), rng.randint(8, 24))
-                    secs.append(shape_tokens('poly', (shell, holes)))
-                else:
-                    secs.append(shape_tokens('pt', [lat.P(rng.randint(0, 20), rng.randint(0, 20))]))
-            lines.append(f'np-h3.coll {rng.choice([3, 4])} ' + ' || '.join(secs))
-        run.run_cases('np-h3-collection', lines, np_impl, np_spec, model=False, tag=lambda ln, a: ['h3:coll'])
+        for _ in range(run.scale(40, 600)):
+            lat = Lattice(rng, 32, rng.choice([3, 4]))
+            kind = rng.choice(['mpt', 'mls', 'mpoly'])
+            lines.append(f'np-h3.multi {rng.choice([2, 3, 4, 5] if kind != "mpoly" else [3, 4, 5])} '
+                         + shape_tokens(kind, gen_multi(rng, lat, kind, rng.randint(2, 12), rng.randint(2, 12))))
+        run.run_cases('np-h3-multi', lines, np_impl, np_spec, model=False,
+                      tag=lambda ln, a: ['h3:multi:' + ln.split()[2], 'h3:multi-cells:' + ('err' if a.startswith('ERR') else '1' if len(a.split()) == 1 else '2+')])
+        # hash_collection: FeatureCollection / Track x 4 aggregators, single shapes mixed with sharing multi-shapes
+        lines = []
+        for _ in range(run.scale(40, 500)):
+            lat = Lattice(rng, 32, rng.choice([3, 4]))
+            ckind = rng.choice(['fc', 'fc', 'track'])
+            aggname = rng.choice(['len', 'len', 'total_time', 'total_time', 'unique_entities', 'ids'])
+            secs = [f'{shape_tokens(kind, data)} @ {vid} {st} {el} {ent}'
+                    for kind, data, vid, st, el, ent in gen_coll_items(rng, lat, ckind, kmax=5, wmax=10)]
+            lines.append(' || '.join([f'np-h3.coll {rng.choice([3, 4, 5])} 0 {aggname} {ckind}'] + secs))
+        run.run_cases('np-h3-collection', lines, np_impl, np_spec, model=False,
+                      tag=lambda ln, a: ['h3:coll:' + ln.split()[3], 'h3:coll:' + ln.split()[4]] +
+                      [f'h3:coll:has-{m}' for m in ('mpt', 'mls', 'mpoly') if f'|| {m} ' in ln])
 
     mark('np-h3')
     run.note('seconds per phase: ' + ', '.join(f'{n}={t - marks[k][1]:.1f}' for k, (n, t) in enumerate(marks[1:])))
